@@ -618,3 +618,23 @@ Print Assumptions C15_reassembler_from_source_less_trans_two_clusters.
 Print Assumptions C15_reassembler_from_source_less_not_transitive.
 Print Assumptions C15_reassembler_from_source_constants.
 Print Assumptions C15_reassembler_from_source_locks.
+
+(* ---------- what the reported errors carry: errors.go, read from the source ----------
+   The error Read returns for an unparsable line is a *parseAuditLogsError whose message names the line, for a callback
+   failure a *reassemblerCBError wrapping the correlator's *SessionTrackerError.  Gen/ErrorTypes.v is regenerated on every
+   run from the three errors.go files: every method of these types is an accessor of one field — Error() is the
+   message built at the failure site, Unwrap() the wrapped error, the classification flags their own fields. *)
+From AM Require Gen.ErrorTypes Proofs.ErrorTypesTie.
+Theorem C15_error_types_from_source :
+  Proofs.ErrorTypesTie.accessor "parseAuditLogsError" "Error" = Some ("message"%string, "string"%string) /\
+  Proofs.ErrorTypesTie.accessor "parseAuditLogsError" "Unwrap" = Some ("inner"%string, "error"%string) /\
+  Proofs.ErrorTypesTie.accessor "reassemblerCBError" "Error" = Some ("message"%string, "string"%string) /\
+  Proofs.ErrorTypesTie.accessor "reassemblerCBError" "Unwrap" = Some ("inner"%string, "error"%string) /\
+  Proofs.ErrorTypesTie.accessor "SessionTrackerError" "Error" = Some ("message"%string, "string"%string) /\
+  Proofs.ErrorTypesTie.accessor "SessionTrackerError" "Unwrap" = Some ("inner"%string, "error"%string) /\
+  Proofs.ErrorTypesTie.accessor "SessionTrackerError" "RemoteLoginFailed" = Some ("remoteLoginFail"%string, "bool"%string) /\
+  Proofs.ErrorTypesTie.accessor "SessionTrackerError" "ParsePIDFailed" = Some ("parsePIDFail"%string, "bool"%string) /\
+  Proofs.ErrorTypesTie.accessor "SessionTrackerError" "AuditEventWriteFailed" = Some ("auditWriteFail"%string, "bool"%string) /\
+  Proofs.ErrorTypesTie.accessor "RemoteUserLoginValidateError" "Error" = Some ("message"%string, "string"%string).
+Proof. exact Proofs.ErrorTypesTie.error_types_from_source. Qed.
+Print Assumptions C15_error_types_from_source.
